@@ -65,6 +65,11 @@ def build_world(sc):
                 continue
             for h in (0, 1):
                 world["reads"].append({"sample": "S1", "chrom": c, "hap": h, "segs": [[idx[0], idx[-1], 7, 7]], "n": 2, "block": b})
+        # short reads of haplotype 0 over a two-ALT record only: haplotag has nothing to tag them with, so they must
+        # not take part in the vote of haplotagphase
+        for i, t in enumerate(sc["types"]):
+            if t == "MULTI" and c == "chrA":
+                world["reads"].append({"sample": "S1", "chrom": c, "hap": 0, "segs": [[i, i, 4, 9]], "n": 6, "block": sc["blocks"][i], "short": True})
     return world
 
 
@@ -218,7 +223,7 @@ def judge(sc):
         else:
             # shorten the reads of block A so that its last variant is not covered
             for r in w2["reads"]:
-                if r["block"] == "A" and r["segs"][0][1] - r["segs"][0][0] >= 1:
+                if r["block"] == "A" and not r.get("short") and r["segs"][0][1] - r["segs"][0][0] >= 1:
                     r["segs"][0][1] -= 1
         sub = os.path.join(d, "sub")
         os.makedirs(sub, exist_ok=True)
